@@ -243,8 +243,11 @@ class RefOutcome(object):
     __slots__ = ("results", "fail_pos", "fail_kind", "exc", "snapshot")
 
 
-def reference(calls):
+def reference(calls, warmup=None):
     ref = Ref()
+    for name, args, kwargs in copy.deepcopy((warmup or {}).get("calls", [])):
+        # an earlier batch submitted through the same BatchProxy / connection (benign calls only): plain sequential effect
+        getattr(ref, name)(*args, **kwargs)
     out = RefOutcome()
     out.results = []
     out.fail_pos = None
@@ -313,6 +316,19 @@ def execute(case, api):
     out.returned_none, out.returned_type, out.snapshot, out.snapshot_exc, out.not_raised = False, None, None, None, None
     try:
         p._pyroBind()       # connect first, so that "did the batch reach the daemon" is observable
+        warm = case.get("warmup")
+        wcalls = [(name, tuple(copy.deepcopy(args)), copy.deepcopy(kwargs)) for name, args, kwargs in (warm or {}).get("calls", [])]
+        batch = client.BatchProxy(p)
+        if warm:
+            # an earlier batch on the same connection - through the SAME BatchProxy object for the public api (re-use is supported)
+            if api == "raw":
+                p._pyroInvokeBatch(wcalls, bool(warm["oneway"]))
+            else:
+                for name, args, kwargs in wcalls:
+                    getattr(batch, name)(*args, **kwargs)
+                wr = batch(oneway=True) if warm["oneway"] else batch()
+                if wr is not None:
+                    list(wr)
         seq0 = p._pyroSeq   # the proxy advances its sequence number when (and only when) it builds a request message
         try:
             if api == "raw":
@@ -333,7 +349,6 @@ def execute(case, api):
                             break
                         out.results.append(item)
             else:
-                batch = client.BatchProxy(p)
                 for name, args, kwargs in calls:
                     parts = name.split(".")
                     m = getattr(batch, parts[0])
@@ -523,9 +538,16 @@ def judge(case, ref, out, api):
 
 def run_case(case):
     _setup()
-    if case["ser"] not in SERIALIZERS or case["servertype"] not in ("thread", "multiplex") or len(case["calls"]) > 10:
+    if "long" in case and "calls" not in case:
+        # compact form of a very long batch: [length, position of the failing member or None]
+        n, fail_at = case["long"]
+        calls = [["incr", [1], {}] for _ in range(n)]
+        if fail_at is not None:
+            calls[fail_at] = ["fail_if", [True, "value", "boom at %d" % fail_at, 0], {}]
+        case = dict(case, calls=calls)
+    if case["ser"] not in SERIALIZERS or case["servertype"] not in ("thread", "multiplex") or len(case["calls"]) > 5000:
         raise HarnessError("malformed case")
-    ref = reference(case["calls"])
+    ref = reference(case["calls"], case.get("warmup"))
     msuffix = ":marshal" if case["ser"] == "marshal" else ""     # MarshalSerializer has its own conversion path for results
     viols = []
     seen = set()
@@ -630,7 +652,25 @@ def case_strategy(draw, ser, servertype):
             calls[draw(st.integers(0, n - 1))] = f
             if mode == "two" and n >= 2:
                 calls[draw(st.integers(0, n - 1))] = copy.deepcopy(draw(failing_call))
-    return {"ser": ser, "servertype": servertype, "oneway": draw(st.booleans()), "calls": calls}
+    case = {"ser": ser, "servertype": servertype, "oneway": draw(st.booleans()), "calls": calls}
+    if draw(st.integers(0, 3)) == 0:
+        wc = [copy.deepcopy(c) for c in draw(st.lists(st.one_of(_incr, _append, _echo, _total), min_size=1, max_size=3))]
+        case["warmup"] = {"calls": wc, "oneway": draw(st.booleans())}
+    return case
+
+
+def long_cases(ser, servertype):
+    """batches far longer than anything a test uses: a failing member around the 1000/2000 marks and elsewhere, both modes"""
+    for n, fail_at in ((1001, None), (1001, 999), (1001, 1000), (1500, 999), (2001, 1999), (2001, 500), (1200, 1001), (2500, 2000)):
+        for oneway in (False, True):
+            yield {"ser": ser, "servertype": servertype, "oneway": oneway, "long": [n, fail_at]}
+
+
+def _first_fail(case):
+    for i, c in enumerate(case["calls"]):
+        if c[0] == "fail_if":
+            return i
+    return None
 
 
 def _nontrivial(case):
@@ -657,6 +697,8 @@ def _labels(case):
             labels.append("calls-after-failure")
     if any(k for _n, _a, k in case["calls"]):
         labels.append("has-kwargs")
+    if case.get("warmup"):
+        labels.append("batchproxy-reused-after-%s-batch" % ("oneway" if case["warmup"]["oneway"] else "normal"))
     return labels
 
 
@@ -669,6 +711,9 @@ def run(ctx):
     stype = ctx.shard.get("servertype", "thread")
     try:
         _served(stype)
+        if ctx.shard.get("part", 0) == 1:
+            for case in long_cases(ser, stype):
+                ctx.observe(case, run_case(case), True, ["long-batch", "oneway" if case["oneway"] else "normal"])
         ctx.search(case_strategy(ser, stype), run_case, ctx.n(450, 15000), nontrivial=_nontrivial, labels=_labels,
                    name="batch", max_rounds=4)
     finally:
